@@ -180,6 +180,7 @@ impl<'a> Ctx<'a> {
         });
     }
     fn progress(&self, h: &[u8], s: usize, e: usize, right: bool, api: &str) {
+        crate::report::beat();
         let span = format!("|{}..{}|{}|{}|", s, e, if right { "R" } else { "L" }, api);
         self.prog.set(&[self.desc.as_bytes(), span.as_bytes(), json::hex(h).as_bytes()]);
     }
@@ -314,6 +315,7 @@ pub fn child(tier: &str, c: usize, n: usize, progress_path: &str, only_subject: 
     let subs = subjects();
     let pfams = packed_families();
     let afams = prefilter_families();
+    crate::report::arm("C15 child (the shared progress file names the exact case)");
     let mut stats = Stats::default();
     let st = &mut stats;
     let mut spans = vec![];
@@ -393,6 +395,7 @@ pub fn child(tier: &str, c: usize, n: usize, progress_path: &str, only_subject: 
         }
     }
     prog.set(&[b"done"]);
+    crate::report::disarm();
     rep.merge(&stats);
     let _ = Anchored::No;
     let _ = Input::new("");
